@@ -220,3 +220,20 @@ func (sq *Queue) VerifSortedChildren() []string {
 	}
 	return out
 }
+
+// VerifQuotaPreemptionStart returns the time quota preemption is due for the queue (zero: not scheduled).
+func (sq *Queue) VerifQuotaPreemptionStart() time.Time {
+	sq.RLock()
+	defer sq.RUnlock()
+	return sq.quotaPreemptionStartTime
+}
+
+// VerifAdvanceQuotaPreemptionClock lets d pass for the quota preemption timing of this queue: a scheduled start
+// time moves d closer (the code only ever compares the start time with time.Now()).
+func (sq *Queue) VerifAdvanceQuotaPreemptionClock(d time.Duration) {
+	sq.Lock()
+	defer sq.Unlock()
+	if !sq.quotaPreemptionStartTime.IsZero() {
+		sq.quotaPreemptionStartTime = sq.quotaPreemptionStartTime.Add(-d)
+	}
+}
